@@ -286,7 +286,7 @@ def eval_plan_cases(ck, name, cases):
     for c in cases:
         rows.append("{| q_id := %d; q_absent := %s; q_pipes := %s; q_bp := %d; q_internal := %s |}" % (
             c["id"], "true" if c.get("absent") else "false", coq_list([PIPE[k] for k in c.get("pipes") or []]),
-            c["bp"], coq_list([PIPE[k] for k in internal_pipe_kinds(c)])))
+            c["bp"], ("(Some %s)" % coq_list([PIPE[k] for k in internal_pipe_kinds(c)])) if (c.get("chain") or c["out"]["err"] == "nosplit") else "None"))
     txt = (PRELUDE + "Definition cases : list plancase := [\n  " + ";\n  ".join(rows) + "].\n"
            "Definition M := Eval vm_compute in plan_mismatches cases.\nPrint M.\n")
     rc, out = ck.coq_eval(name, txt)
@@ -415,7 +415,7 @@ def run_cases(ck, cases, label):
         c = min((byid[i] for i in mism), key=size_of)
         ck.violation({"property": PID, "kind": "model/implementation disagree; the reference semantics still accepts every output",
                       "query": c["query"], "case": slim(c), "broken": "correspondence InternalEngine.run_chain vs internal_planner"}, no_input=True)
-    planned = [c for c in chain_cases if c["out"]["err"] not in ("parse",) and (c.get("chain") or c["out"]["err"] == "nosplit") and not (c["out"]["err"] == "plan" and not c.get("chain"))]
+    planned = [c for c in chain_cases if c["out"]["err"] != "parse" and c.get("pipes") is not None]
     if planned:
         m, out = eval_plan_cases(ck, "C09_%s_plan" % label, planned)
         if m is None:
@@ -424,8 +424,9 @@ def run_cases(ck, cases, label):
             ck.obligation("%s: GetBreakpoint and the split of the pipeline = model get_breakpoint / internal_pipes on %d planned queries" % (label, len(planned)), not m, "case ids %s" % m[:10])
             if m:
                 c = [c for c in planned if c["id"] in m][0]
-                ck.violation({"property": PID, "kind": "split point differs from the model of GetBreakpoint/breakScript", "query": c["query"],
-                              "pipes": c.get("pipes"), "bp": c["bp"], "internal": internal_pipe_kinds(c)}, no_input=True)
+                ck.violation({"property": PID, "kind": "split point: the observed breakpoint / in-process part is not the first stage ClickHouse cannot run (theorem split_point_is_first_unsupported_stage is about get_breakpoint, which this query contradicts)",
+                              "query": c["query"], "pipes": c.get("pipes"), "bp": c["bp"], "internal": internal_pipe_kinds(c),
+                              "replay": "harness inteng --cases <file with {\"query\": ...} as one JSON line>"})
     if fp_cases:
         m, out = eval_fp_cases(ck, "C09_%s_fp" % label, fp_cases)
         if m is None:
